@@ -168,11 +168,8 @@ fn level(cx: &mut Ctx, sum: &mut Summary, image: &[u8], reference: Option<&Obs>,
         let mut verdict: Option<(String, String)> = None;
         if o.first.logical() != reference.logical() {
             verdict = Some(classify(&reference, &o.first));
-        } else if let Some(second) = &o.second {
-            if second.logical() != o.first.logical() {
-                verdict = Some(("reopen-of-recovered-file-changes-frames".into(),
-                    format!("second open of the recovered file shows [{}], the first showed [{}]", second.logical(), o.first.logical())));
-            }
+        } else if let Some(d) = o.reopen_diff() {
+            verdict = Some(("reopen-of-recovered-file-changes-frames".into(), d));
         }
         if let Some((sig, what)) = verdict {
             bad += 1;
